@@ -254,6 +254,24 @@ def run_shard(spec, ctx):
             ctx.count('valid_program_candidates')
             _judge(ctx, v, text)
         return
+    if spec['kind'] == 'other_trees':
+        import random
+        from . import c04
+        rng = random.Random(spec['seed'])
+        files = G.corpus_files()
+        for v in harness.VERSIONS:
+            for e in _EXPRS:
+                _judge_eval_input(ctx, v, e)
+        for i in range(spec['n']):
+            if ctx.out_of_time():
+                break
+            v = harness.VERSIONS[i % 9]
+            if i % 2:
+                t = rng.choice(_EXPRS) if rng.random() < .3 else rng.choice(G.split_keep(G.hostile(rng, files)) or ['x']).strip().split('=', 1)[-1].strip()
+                _judge_eval_input(ctx, v, t)
+            else:
+                _judge_history(ctx, v, c04.make_history(rng, files), str(i))
+        return
     if spec['kind'] == 'files':
         it = _text.whole_files(spec, ctx)
     elif spec['kind'] == 'examples':
@@ -271,8 +289,90 @@ def run_shard(spec, ctx):
     ctx.count('rule_feeds', sum(_fed.values()))
 
 
+_EXPRS = ['a', 'f(x=1, x=2)', 'f(**a, *b)', '(yield)', 'await x', 'lambda: (yield)', '[x async for x in y]', 'f"{x!r:>{w}}"', "b'a' 'b'", '*a', 'a := 1', '(a := 1)',
+          'x if y else z', '[*a, *b]', '{**a, 1: 2}', 'not a', 'a < b < c', 'f(a for a in b, c)', '...', '__debug__', 'None', 'a.b[0](c)', '"\\N{foo}"', '1_000',
+          'lambda a, a: 1', 'lambda *: 1', '[a for a in b if (c := a)]', 'f"{x:{y:{z}}}"', '(a, b) = 1', 'f(lambda: 1 = 2)', 'a if b', '(', '']
+
+
+def _judge_eval_input(ctx, v, text):
+    """trees whose root is no module: grammar.parse(text, error_recovery=False, start_symbol='eval_input')"""
+    import parso
+    g = parso.load_grammar(version=v)
+    try:
+        m = g.parse(text, error_recovery=False, start_symbol='eval_input')
+    except Exception:
+        ctx.count('eval_input_rejected')
+        return
+    ctx.count('eval_input_trees')
+    _state['code'] = text
+    w = {'version': v, 'code': text, 'start_symbol': 'eval_input'}
+    try:
+        a = list(g.iter_errors(m))
+        b = list(g.iter_errors(m))
+    except RecursionError:
+        return
+    except Exception as e:
+        info = harness.exc_info(e)
+        ctx.violation('iter_errors_raised', 'eval_input tree: %s: %s in %s: %s' % (info['type'], info['text'], info['func'], info['line']), w, exc=info)
+        return
+    if _issues_sig(a) != _issues_sig(b):
+        ctx.violation('nondeterministic', 'eval_input tree: second listing differs', w)
+    for i in a:
+        if i.code not in (901, 903) or not ((1, 0) <= tuple(i.start_pos) <= tuple(i.end_pos) <= tuple(m.end_pos)):
+            ctx.violation('issue_range', 'eval_input tree: issue %r code %r range %s..%s' % (i.message, i.code, i.start_pos, i.end_pos), w)
+
+
+def _judge_history(ctx, v, hist, hid):
+    """the listing follows the tree through in-place (diff_cache) updates: after each update the list of the updated module
+    must be the list of a fresh parse of the same text; the module was listed before the update, too"""
+    import parso
+    from parso.cache import parser_cache
+    g = parso.load_grammar(version=v)
+    path = '/virt/c13/%s.py' % hid
+    try:
+        for i, text in enumerate(hist):
+            try:
+                m = g.parse(text, diff_cache=True, path=path)
+                f = g.parse(text)
+            except RecursionError:
+                return
+            except Exception:
+                ctx.count('parse_raised_not_judged_here')
+                return
+            if tree_sig(m) != tree_sig(f):
+                ctx.count('incremental_tree_differs_not_judged_here')      # C04's business
+                return
+            _state['code'] = text
+            try:
+                a = _issues_sig(list(g.iter_errors(m)))
+                b = _issues_sig(list(g.iter_errors(f)))
+            except RecursionError:
+                return
+            except Exception:
+                return      # recorded by the exception observer
+            ctx.count('listings_after_in_place_updates')
+            try:
+                # the updated module is also the last tree listed before the next update (whatever is remembered about "the last
+                # listing" must not survive the update)
+                if _issues_sig(list(g.iter_errors(m))) != a:
+                    ctx.violation('nondeterministic', 'step %d: listing the updated module again gives another list' % i, {'version': v, 'history': hist[:i + 1]})
+                    return
+            except Exception:
+                return
+            if a != b:
+                ctx.violation('listing_not_following_the_tree', 'step %d: the module updated in place lists %r, a fresh parse of the same text %r' % (
+                    i, [x for x in a if x not in b][:2], [x for x in b if x not in a][:2]), {'version': v, 'history': hist[:i + 1]})
+                return
+    finally:
+        parser_cache.pop(g._hashed, None)
+
+
 def replay(w, ctx):
     _install(ctx)
+    if 'history' in w:
+        return _judge_history(ctx, w['version'], w['history'], 'replay')
+    if w.get('start_symbol') == 'eval_input':
+        return _judge_eval_input(ctx, w['version'], w['code'])
     _judge(ctx, w['version'], w['code'])
 
 
@@ -283,6 +383,7 @@ def shards(tier, seed):
            'budget_s': 60 if tier == 'quick' else 900} for i in range(nf)]
     s += [{'kind': 'examples'}]
     s += [{'kind': 'valid', 'n': 4000 if tier == 'quick' else 100000, 'budget_s': 60 if tier == 'quick' else 900} for _ in range(4)]
+    s += [{'kind': 'other_trees', 'n': 1500 if tier == 'quick' else 60000, 'budget_s': 60 if tier == 'quick' else 900} for _ in range(3)]
     if tier == 'thorough':
         s.append({'kind': 'suite'})
     return s
@@ -290,7 +391,8 @@ def shards(tier, seed):
 
 def floors(tier):
     return {'evaluations': 4000, 'contract_evals:Grammar.iter_errors': 8000, 'lists_nonempty': 2000,
-            'lists_semantic_only': 100, 'strict_failed': 2000, 'set:rules_fed': 28, 'subtree_listings': 10000}
+            'lists_semantic_only': 100, 'strict_failed': 2000, 'set:rules_fed': 28, 'subtree_listings': 10000,
+            'eval_input_trees': 500, 'listings_after_in_place_updates': 2000}
 
 
 def extra_coverage(m, tier):
